@@ -402,6 +402,8 @@ class IterFlow:
             return Node(v.level, v.checked, v.admitted, v.rec)
         if isinstance(v, tuple) and v[0] == "gen":
             return Node(None, True, True, True)
+        if isinstance(v, tuple) and v[0] == "iterobj":
+            return ("group",)
         return TOPV
 
     def guard(self, f, n, env, facts, rec):
